@@ -33,7 +33,7 @@ func stalledReceive(c *runner.Cfg, res *report.Result, logger *netx.RecLogger) {
 		window := r.Pick(16<<10, 64<<10)
 		size := r.Pick(512, 1024, 3000)
 		total := (window*5/2)/size + 1
-		kind := []string{"cancelled", "timed-out"}[idx%2]
+		kind := []string{"cancelled", "timed-out", "cancelled (async.CancelledContext())"}[idx%3]
 		slot.SetString(fmt.Sprintf("C03/stall:%d window=%d size=%d total=%d ctx=%s", idx, window, size, total, kind))
 		res.Eval(1)
 		w := map[string]any{"stream": "C03/stall", "index": idx, "window": window, "message_size": size, "messages": total, "receive_context": kind, "write_queue": 4096}
@@ -160,6 +160,8 @@ func stalledReceive(c *runner.Cfg, res *report.Result, logger *netx.RecLogger) {
 			cc.Cancel()
 			defer cc.Free()
 			dead = cc
+		} else if idx%3 == 2 {
+			dead = async.CancelledContext()
 		} else {
 			dead = async.TimeoutContext(time.Nanosecond)
 			<-dead.Wait()
@@ -180,6 +182,10 @@ func stalledReceive(c *runner.Cfg, res *report.Result, logger *netx.RecLogger) {
 		for next < total && time.Since(idle) < 1200*time.Millisecond && !lost {
 			b, st := chA.Receive(dead)
 			switch {
+			case st.OK() && len(b) == 0 && next >= int(inFlight):
+				w["position"], w["in_flight_before_stall"] = next, inFlight
+				res.Violate("c03:stalled-receive:ok-without-message", fmt.Sprintf("Receive with a %s context returned status OK and no message although nothing was queued (the context's Wait fired and its Status() is OK)", kind), w)
+				lost = true
 			case st.OK():
 				check(b, "stalled")
 				idle = time.Now()
